@@ -314,6 +314,10 @@ class Check:
             print("# %d violating cases in %d groups; full list: %s" % (len(self.violations), len(shown), allv))
             sys.stdout.flush()
             return 1
+        # a clean run leaves no violation list behind (tools/triage.py reads these files)
+        stale = os.path.join(ROOT, "replays", self.pid, "all_%s.jsonl" % self.tier)
+        if os.path.exists(stale):
+            os.unlink(stale)
         print("OK property=%s tier=%s wall=%.1fs %s" % (self.pid, self.tier, wall,
               " ".join("%s=%s" % (k, v) for k, v in cov.items() if isinstance(v, (int, bool)))))
         return 0
